@@ -400,7 +400,8 @@ Theorem C18_check_meaning_graphops : forall rest,
      let neg := existsb (fun x => x <? 0) (nodes ++ eflat) in
      sg_matches (if neg then None else subgraph_keep g nodesN edgesN) status obs /\
      (neg = false -> keep_wf g nodesN edgesN ->
-        status = 0 /\ exists s, Forall2 sg_row s obs /\ keep_spec_concl g nodesN edgesN s)) /\
+        status = 0 /\ exists s, Forall2 sg_row s obs /\ keep_spec_concl g nodesN edgesN s) /\
+     (neg = false -> (exists v, In v nodesN /\ (g_n g <= v)%N) \/ ~ NoDup nodesN -> status = 2)) /\
   (remove_case_ok rest <-> exists g nodes edges status obs,
      let eflat := flat_pairs edges in
      rest = enc_graph g ++ enc_Zs nodes ++ enc_Zs eflat ++ status :: Z.of_nat (length obs) :: flat_map enc_sgobs obs
@@ -419,7 +420,8 @@ Theorem C18_check_meaning_graphops : forall rest,
      let stmts := dot_stmts d (g_out g) (g_n g) in
      somes (map stmt_node stmts) = nodes_upto (g_n g) /\
      somes (map stmt_edge stmts) = flat_map (fun i => map (fun o => (i, o)) (g_out g i)) (nodes_upto (g_n g)) /\
-     ((status = 0 /\ exists body, render_all stmts = Some body /\
+     ((status = 0 /\ (forall s a, In s stmts -> In a (stmt_attrs s) -> snd a <> AOther) /\
+       exists body, render_all stmts = Some body /\
          obs = ZsN ([100; 105; 103; 114; 97; 112; 104; 32] ++ dot_string (d_name d) ++ [32; 123; 10] ++ body ++ [125; 10])%N)
       \/ (status = 2 /\ exists s a, In s stmts /\ In a (stmt_attrs s) /\ snd a = AOther))).
 Proof. exact case_meaning_graphops. Qed.
